@@ -318,8 +318,9 @@ class Formatter:
             return self.format_empty_string(arg)
         if re.search(r"[\"']", arg):  # contains a nested string
             return self.format_string_with_nested_string(arg)
-        if re.search(r"[\s:/\\;,{}()<>\[\]]|^#include", arg):
-            # contains spaces, path or delimiters, or starts like an include directive -> complex string
+        if re.search(r"[\s:/\\;,{}()<>\[\]]|^#(include|$)", arg):
+            # contains spaces, path or delimiters, or starts like an include directive
+            # (also a lone '#', which the next list item could complete to '# include') -> complex string
             return self.format_multi_word_string(arg)
         # single word string
         return self.format_single_word_string(arg)
